@@ -770,7 +770,8 @@ def parse_cobs(line):
          "steps": int((sx.field(f, "steps") or ["0"])[0]), "vt": int((sx.field(f, "vt") or ["0"])[0]),
          "panics": int((sx.field(f, "panics") or ["0"])[0]), "timelimit": (sx.field(f, "timelimit") or ["0"])[0],
          "live": sx.field(f, "live"), "names": sx.field(f, "names"), "ev": sx.field(f, "ev"), "choices": sx.field(f, "choices"),
-         "msg": " ".join(map(str, sx.field(f, "msg")))}
+         "msg": " ".join(map(str, sx.field(f, "msg"))), "edges": sx.field(f, "edges") or [],
+         "detail": " ".join(map(str, sx.field(f, "detail") or []))}
     return d
 
 
